@@ -577,6 +577,15 @@ type simScanState struct {
 	errK   int // which error
 	fired  bool
 	tokens int
+	// The interface says nothing about how often Token evaluates its
+	// predicate or how many runes can be pushed back. peek: extra evaluations
+	// of the predicate per rune (a peer that looks before it accepts, or
+	// matches again after refilling its window); deep: UnreadRune goes back
+	// as many runes as were read (fmt's own goes back one, and so do
+	// strings.Reader and bufio.Reader).
+	peek  int
+	deep  bool
+	sizes []int
 }
 
 func (s *simScanState) ReadRune() (rune, int, error) {
@@ -591,10 +600,22 @@ func (s *simScanState) ReadRune() (rune, int, error) {
 	r, n := utf8.DecodeRune(s.data[s.pos:])
 	s.pos += n
 	s.last = n
+	if s.deep {
+		s.sizes = append(s.sizes, n)
+	}
 	return r, n, nil
 }
 
 func (s *simScanState) UnreadRune() error {
+	if s.deep {
+		if len(s.sizes) == 0 {
+			return errors.New("simScanState: nothing to unread")
+		}
+		s.pos -= s.sizes[len(s.sizes)-1]
+		s.sizes = s.sizes[:len(s.sizes)-1]
+		s.last = 0
+		return nil
+	}
 	if s.last == 0 {
 		return errors.New("simScanState: nothing to unread")
 	}
@@ -627,7 +648,11 @@ func (s *simScanState) Token(skipSpace bool, f func(rune) bool) ([]byte, error) 
 		if err != nil {
 			return tok, err
 		}
-		if !f(r) {
+		ok := f(r)
+		for i := 0; i < s.peek; i++ {
+			ok = f(r) // the same question again: the answer must be the same
+		}
+		if !ok {
 			s.UnreadRune()
 			return tok, nil
 		}
@@ -646,7 +671,7 @@ func init() {
 	// I[2] = receiver slot. Calls Decimal.Scan directly with a
 	// simulator-owned fmt.ScanState.
 	reg("ScanState", func(x *Ctx, op *Op, r *Result) {
-		st := &simScanState{data: op.bytes(0), errAt: int(op.int(1)), errK: int(op.int(3))}
+		st := &simScanState{data: op.bytes(0), errAt: int(op.int(1)), errK: int(op.int(3)), peek: int(op.int(4) & 3), deep: op.int(4)&4 != 0}
 		d := x.recv(op.int(2))
 		x.call(r, func() {
 			err := d.Scan(st, rune(op.int(0)))
